@@ -81,15 +81,17 @@ AsymBase == [
 \* A key descriptor: what the driver is asked to export as a JWK.
 \*   base/bits/var identify the material; priv: 1 = private form; alg, kid,
 \*   use: attribute strings or "~"; ops: sequence of key_ops strings;
-\*   defect: "~" for a well-formed JWK, otherwise the name of a defect class.
+\*   defect: <<>> for a well-formed JWK, otherwise a list of <<member, class>>
+\*   defects the driver applies to the exported JWK; bad = 1 iff defective.
+WithDefect(k, member, cls) == [k EXCEPT !.defect = <<<<member, cls>>>>, !.bad = 1]
 AsymKey(base, priv, alg, kid) ==
   [base |-> base, kty |-> AsymBase[base].kty, bits |-> AsymBase[base].bits,
    crv |-> AsymBase[base].crv, var |-> "a", priv |-> priv, alg |-> alg, kid |-> kid,
-   use |-> NONE, ops |-> <<>>, defect |-> NONE]
+   use |-> NONE, ops |-> <<>>, defect |-> <<>>, bad |-> 0]
 
 OctKey(bytes, var, alg, kid) ==
   [base |-> "oct", kty |-> "oct", bits |-> 8 * bytes, crv |-> NONE, var |-> var,
-   priv |-> 1, alg |-> alg, kid |-> kid, use |-> NONE, ops |-> <<>>, defect |-> NONE]
+   priv |-> 1, alg |-> alg, kid |-> kid, use |-> NONE, ops |-> <<>>, defect |-> <<>>, bad |-> 0]
 
 \* same key material?
 SameMat(k1, k2) == k1.base = k2.base /\ k1.bits = k2.bits /\ k1.var = k2.var
